@@ -487,7 +487,7 @@ Qed.
 Lemma node_ops_NoDup is_stream n : forall parent opts,
   NoDup (uids n) -> NoDup (fst (node_ops is_stream parent opts n)).
 Proof.
-  induction n as [uid key inf natives fails|uid key|uid key inf stages IH|uid key inf calls] using gnode_ind';
+  induction n as [uid key inf natives fails|uid key|uid key inf stages IH|uid key inf calls|] using gnode_ind';
     intros parent opts ND.
   - simpl. constructor; [simpl; intros [E|[E|[]]]; discriminate|].
     constructor; [simpl; intros [E|[]]; symmetry in E; revert E; apply start_end_distinct|]. constructor; auto. constructor.
@@ -527,6 +527,7 @@ Proof.
     apply NoDup_app_intro; auto.
     + constructor; auto. constructor.
     + intros x Hx [<-|[]]. apply UC in Hx. simpl in Hx. contradiction.
+  - simpl. constructor.
 Qed.
 
 Theorem graph_ops_NoDup is_stream g ginf opts stages :
